@@ -110,6 +110,19 @@ def solver_programs():
     return P
 
 
+def warm_programs():
+    """C02: every scalar solver step again, taken AFTER a different step on the same solver object (group 'Warm')"""
+    from . import prog_solvers as ps
+    P = []
+    for method, sde_type, noises in SOLVER_TABLE:
+        for noise in noises:
+            for gf in ([False, True] if method == 'milstein' and noise != 'additive' else [False]):
+                fn, sample, funcs = ps.make_step(method, sde_type, noise, 1, 1, options={'grad_free': True} if gf else None, warmup=True)
+                tol = 1e-12 if (method in ('milstein', 'log_ode') and not gf) else (4e-15 if method == 'srk' or gf else 0.0)
+                P.append(Prog(step_name(method, sde_type, noise, 1, 1, gf) + '_warm', 'Warm', fn, sample, funcs=funcs, tol=tol, props=('C02',)))
+    return P
+
+
 def staged_programs():
     """C02: SRK (SRID2) with every drift/diffusion evaluation as its own Lean definition (staged Taylor certificates)."""
     from . import prog_solvers as ps
@@ -141,6 +154,12 @@ def grad_programs():
                                              nsteps=1 if heavy else 2)
             P.append(Prog('grad_' + step_name(method, sde_type, noise, d, m, gf), 'Grad', fn, sample, funcs=funcs,
                           rg=('y0', 'theta'), tol=1e-9, props=('C08',)))
+            if d == 1 and not gf:
+                # the same with an initial state that is plain data (requires_grad False): only the parameter is differentiated;
+                # the first step then runs on a state without graph (this is where a `create_graph` that looks at the state breaks)
+                fn2, sample2, funcs2 = pg.make_grad(method, sde_type, noise, d, m, nsteps=1 if heavy else 2, y0_grad=False)
+                P.append(Prog('gradp_' + step_name(method, sde_type, noise, d, m, gf), 'Grad', fn2, sample2, funcs=funcs2,
+                              rg=('theta',), tol=1e-9, props=('C08',)))
     return P
 
 
@@ -335,4 +354,4 @@ def adjloop_programs():
 
 def all_programs():
     return (brownian_programs() + solver_programs() + loop_programs() + logqp_programs() + batch_programs() + staged_programs() + grad_programs()
-            + iface_programs() + ops_programs() + adjoint_programs() + arh_programs() + adjloop_programs())
+            + iface_programs() + ops_programs() + adjoint_programs() + arh_programs() + adjloop_programs() + warm_programs())
